@@ -263,7 +263,7 @@ func convS(fr *frame, tDst, tSrc types.Type, x value) value {
 		}
 		panic(unsupported{fmt.Sprintf("symString conversion to %s", tDst)})
 	case []value:
-		// []byte -> string with symbolic bytes
+		// []byte / []rune -> string with symbolic elements (runes are assumed ASCII)
 		if b, ok := tDst.Underlying().(*types.Basic); ok && b.Kind() == types.String {
 			hasSym := false
 			for _, e := range xv {
@@ -274,7 +274,21 @@ func convS(fr *frame, tDst, tSrc types.Type, x value) value {
 			}
 			if hasSym {
 				res := make([]value, len(xv))
-				copy(res, xv)
+				for i, e := range xv {
+					switch ev := e.(type) {
+					case sym:
+						if ev.bk != types.Uint8 {
+							fr.i.pc.stats.Assumptions["symbolic text bytes are ASCII (< 0x80)"] = true
+							res[i] = symConv(fr, types.Uint8, ev)
+						} else {
+							res[i] = ev
+						}
+					case int32:
+						res[i] = uint8(ev)
+					default:
+						res[i] = e
+					}
+				}
 				return symString{res}
 			}
 		}
